@@ -31,6 +31,8 @@ func Spec() *evid.Spec {
 		Lanes: []evid.Lane{
 			{Name: "executions", Children: evid.Const(16, 16), Cases: evid.Const(30, 1500), TimeoutS: evid.Const(600, 5400),
 				Setup: func(ch *evid.Child) { ch.Data = qsim.NewEnv() }, Run: runExec},
+			{Name: "single", Children: evid.Const(8, 16), Cases: evid.Const(30, 900), TimeoutS: evid.Const(600, 5400),
+				Setup: func(ch *evid.Child) { ch.Data = qsim.NewEnv() }, Run: runSingle},
 			{Name: "forgery", Children: evid.Const(8, 16), Cases: evid.Const(20, 600), TimeoutS: evid.Const(600, 5400),
 				Setup: func(ch *evid.Child) { ch.Data = qsim.NewEnv() }, Run: runForgery},
 		},
@@ -371,4 +373,97 @@ func snapshot(nd *qsim.Node, h specqbft.Height) snap {
 		s.commitMsgs += len(ms)
 	}
 	return s
+}
+
+// runSingle: one real controller against an adversary that holds every other operator's key.
+func runSingle(c *evid.Case) {
+	env := c.Data.(*qsim.Env)
+	rng := c.Rng
+	n := []int{4, 7}[rng.Intn(2)]
+	h := specqbft.Height(rng.Intn(3 * n))
+	me := rng.Intn(n)
+	var others []int
+	for i := 0; i < n; i++ {
+		if i != me {
+			others = append(others, i)
+		}
+	}
+	cfg := qsim.Config{N: n, Height: h, NumByz: n - 1, ByzIDs: others, ValueMode: 1, Policy: 0, MaxSteps: 60 + rng.Intn(120), MaxRound: 6, FullNode: rng.Intn(2) == 0}
+	cl := qsim.NewCluster(env, rng, cfg)
+	mon := qrun.Attach(cl)
+	res := mon.Res
+	node := cl.Honest()[0]
+	byz := cl.ByzNodes()
+	cl.StartAll()
+	mon.Check()
+	isT := func(t specqbft.MessageType) func(f *qsim.Flight) bool {
+		return func(f *qsim.Flight) bool { return f.Msg.Message.MsgType == t && len(f.Msg.Signers) == 1 }
+	}
+	// bring the operator to round r0, then aim at round R >= r0
+	r0 := specqbft.Round(1 + rng.Intn(3))
+	for node.Inst() != nil && node.Inst().Round < r0 && !node.Inst().Decided {
+		_ = cl.FireTimeoutFor(node, h, node.Inst().Round)
+		mon.Check()
+	}
+	cl.DropWhere(func(*qsim.Flight) bool { return true })
+	R := r0 + specqbft.Round(rng.Intn(3))
+	legit := cl.Nodes[qsim.Leader(n, h, R)-1]
+	signer := legit
+	wrong := rng.Intn(2) == 0
+	if wrong || legit == node {
+		// another operator: prefer the leader of the operator's CURRENT round
+		cand := cl.Nodes[qsim.Leader(n, h, r0)-1]
+		if cand == node || cand == legit {
+			cand = byz[rng.Intn(len(byz))]
+		}
+		signer = cand
+	}
+	v := cl.Values[rng.Intn(len(cl.Values))]
+	var rcs []*specqbft.SignedMessage
+	if R > 1 {
+		for _, z := range byz[:int(cl.KS.Threshold)] {
+			rcs = append(rcs, cl.MkRoundChange(z, R, false))
+		}
+	}
+	if signer != node {
+		cl.ByzSendTo(signer, cl.MkProposal(signer, R, v, rcs, nil), "proposal", []*qsim.Node{node})
+		cl.DeliverWhere(isT(specqbft.ProposalMsgType), mon.Check)
+		q := int(cl.KS.Threshold)
+		for _, z := range byz[:q] {
+			cl.ByzSendTo(z, cl.MkSimple(z, specqbft.PrepareMsgType, R, qsim.Root(v)), "prepare", []*qsim.Node{node})
+		}
+		cl.DeliverWhere(isT(specqbft.PrepareMsgType), mon.Check)
+		for _, z := range byz[:q] {
+			cl.ByzSendTo(z, cl.MkSimple(z, specqbft.CommitMsgType, R, qsim.Root(v)), "commit", []*qsim.Node{node})
+		}
+		cl.DeliverWhere(isT(specqbft.CommitMsgType), mon.Check)
+	}
+	for len(res.Certs) == 0 && cl.Step() {
+		mon.Check()
+	}
+	for _, f := range res.Certs {
+		if f.Kind == "stored-state-disagrees-with-certificate" {
+			// with more than f keys in the adversary's hand two valid certificates for different values can exist at one height;
+			// "the stored state agrees with the stored certificate" presupposes agreement and is not demanded in this lane
+			c.Count("single_conflicting_certificates_seen (adversary holds > f keys)", 1)
+			continue
+		}
+		c.Violation(f.Kind, "single/"+f.Sig, f.Detail, qrun.Witness(res))
+	}
+	c.Count("single_executions", 1)
+	c.Count("single_decisions_local", int64(res.LocalDec))
+	c.Count("single_decisions_via_decided_msg", int64(res.RemoteDec))
+	if signer != legit {
+		c.Count("single_proposals_by_non_leader_sent", 1)
+	}
+	if res.CertsSeen > 0 {
+		c.Nontrivial(evid.Hash("single", n, h%specqbft.Height(n), r0, R, signer != legit, res.LocalDec, res.RemoteDec))
+	}
+	if c.Index == 0 && c.Idx == 0 {
+		acts := cl.Acts
+		if len(acts) > 40 {
+			acts = acts[:40]
+		}
+		c.Sample(map[string]any{"lane": "single", "config": cfg, "actions": acts})
+	}
 }
